@@ -505,7 +505,7 @@ pub trait TS {
             .ok_or_else(std::any::type_name::<Self>)
             .map_err(ExportError::CannotBeExported)?;
 
-        export::export_to::<Self, _>(path)
+        export::export_to::<Self, _>(&export::default_out_dir(), path)
     }
 
     /// Manually export this type to the filesystem, together with all of its dependencies.  
